@@ -44,7 +44,7 @@ type command struct {
 	desc      string
 	pieces    []piece
 	extraTags []string // further complete commands pipelined in the last piece (each must be answered too)
-	truncated bool // an oversized literal was announced but its payload is not sent in full: stop the dialogue afterwards
+	truncated bool     // an oversized literal was announced but its payload is not sent in full: stop the dialogue afterwards
 	// expectations about arguments that reach the backend when the command is accepted
 	wantMethod string
 	wantArg    string // exact value the first string argument must have if the method is called
